@@ -54,7 +54,9 @@ type Arg struct {
 
 // ExprHash returns a unique identifier for an Expr.
 func ExprHash(fset *token.FileSet, n ast.Expr) string {
-	pos := fset.Position(n.Pos())
+	// The position in the file itself: //line directives can name files that
+	// do not make identifiers and give several expressions one position.
+	pos := fset.PositionFor(n.Pos(), false)
 	return fmt.Sprintf("m%v%d_%d", TrimFilename(pos.Filename), pos.Line, pos.Column)
 }
 
